@@ -3,6 +3,7 @@ package main
 import (
 	"go/types"
 	"regexp"
+	"sort"
 	"strings"
 
 	"golang.org/x/tools/go/ssa"
@@ -291,15 +292,86 @@ func (e *Eng) assumedEq(fn *ssa.Function, assume []LitM) map[string]map[string]b
 			}
 		}
 	}
+	lhss := map[string]bool{}
+	note := func(l Lit) {
+		add(l)
+		for _, a := range []string{l.Atom, l.Alt} {
+			if lhs, _, ok := eqAtom(a); ok {
+				lhss[lhs] = true
+			}
+		}
+	}
 	for _, b := range fn.Blocks {
 		for _, l := range e.EdgeLits(b, 0) {
-			add(l)
+			note(l)
 		}
 	}
 	for _, l := range e.retLits(fn) {
-		add(l)
+		note(l)
+	}
+	// an assumed value the function never compares with explicitly ("else" branch of a chain over the
+	// other values): try the constants the package compares such expressions with
+	for lhs := range lhss {
+		for _, k := range e.pkgEqConsts(fnPkgPath(fn)) {
+			a := "(" + lhs + " == " + k + ")"
+			for _, am := range assume {
+				if am.F(Lit{Atom: a, Pos: true}) {
+					if m[lhs] == nil {
+						m[lhs] = map[string]bool{}
+					}
+					m[lhs][k] = true
+				}
+			}
+		}
 	}
 	return m
+}
+
+// pkgEqConsts: the constants that branch conditions of the package's functions compare expressions with.
+func (e *Eng) pkgEqConsts(pkg string) []string {
+	if cs, ok := e.eqConstCache[pkg]; ok {
+		return cs
+	}
+	set := map[string]bool{}
+	for _, f := range e.FuncsOfPkg(pkg) {
+		for _, b := range f.Blocks {
+			if len(b.Instrs) == 0 {
+				continue
+			}
+			iff, ok := b.Instrs[len(b.Instrs)-1].(*ssa.If)
+			if !ok {
+				continue
+			}
+			l := e.CondLit(f, iff.Cond)
+			if _, k, ok := eqAtom(l.Atom); ok {
+				set[k] = true
+			}
+		}
+	}
+	var out []string
+	for k := range set {
+		out = append(out, k)
+	}
+	sort.Strings(out)
+	if e.eqConstCache == nil {
+		e.eqConstCache = map[string][]string{}
+	}
+	e.eqConstCache[pkg] = out
+	return out
+}
+
+// litKnown: the function branches on the literal, or — for an equality with a constant — on the same
+// expression against other constants (the value is then reached by exclusion).
+func (e *Eng) litKnown(fn *ssa.Function, a LitM) bool {
+	if e.CountLitEdges(fn, a)+e.CountLitEdges(fn, a.Neg()) > 0 {
+		return true
+	}
+	for _, ks := range e.assumedEq(fn, []LitM{a}) {
+		if len(ks) > 0 {
+			return true
+		}
+	}
+	return false
 }
 
 // Table evaluates a decision table on fn.  Every atom used in an assumption
@@ -310,7 +382,7 @@ func (o *Ob) Table(fn *ssa.Function, key string, rows []Row) {
 		rk := key + "|" + row.Name
 		missing := false
 		for _, a := range row.Assume {
-			if e.CountLitEdges(fn, a)+e.CountLitEdges(fn, a.Neg()) == 0 {
+			if !e.litKnown(fn, a) {
 				o.FailAt(rk+"|atom", "row '"+row.Name+"': "+fnName(fn)+" no longer branches on "+a.Desc+" (branch conditions present: "+strings.Join(e.LitsOf(fn), " ; ")+")", fn)
 				missing = true
 			}
@@ -608,4 +680,27 @@ func (e *Eng) FuncValue(v ssa.Value) *ssa.Function {
 		break
 	}
 	return nil
+}
+
+// GoSite is a place where a goroutine is started: a go statement, or sync.WaitGroup.Go.
+type GoSite struct {
+	Instr ssa.CallInstruction
+	Fn    *ssa.Function // the goroutine's function (literal, function or method), nil if dynamic
+	Args  []ssa.Value   // arguments handed to it (none for WaitGroup.Go)
+	ViaWG bool
+}
+
+func (e *Eng) GoSites(fn *ssa.Function) []GoSite {
+	var out []GoSite
+	for _, in := range AllInstrs(fn) {
+		switch x := in.(type) {
+		case *ssa.Go:
+			out = append(out, GoSite{x, e.FuncValue(x.Call.Value), x.Call.Args, false})
+		case *ssa.Call:
+			if calleeName(&x.Call) == "(*sync.WaitGroup).Go" && len(x.Call.Args) == 2 {
+				out = append(out, GoSite{x, e.FuncValue(x.Call.Args[1]), nil, true})
+			}
+		}
+	}
+	return out
 }
